@@ -1578,6 +1578,16 @@ class TokInterp(Interp):
         self.unsupported('comparison operator in %s' % norm(node)[:70], node)
 
     # ------------------------------------------------------------------ statements
+    def st_Assert(self, n, st):
+        """an assertion whose test is outside the abstract domain (an integer inequality, say) restates an invariant: it is
+        assumed to hold (with -O it is not even evaluated); decidable ones are evaluated as usual"""
+        try:
+            return super().st_Assert(n, st)
+        except Unsupported:
+            if any(isinstance(x, ast.Call) for x in ast.walk(n.test)):
+                raise
+            return [(NEXT, st)]
+
     def on_nested_def(self, n, st):
         """a function defined inside a rule: remembered, and run in the rule's own frame when called (it reads and, with
         `nonlocal`, writes the rule's locals)"""
